@@ -185,6 +185,7 @@ func genInput(t *sim.Tape, allowed []Surface, st *sim.Stats) *Input {
 		}
 		f := gen.GenFont(t, 14)
 		format := sim.Pick(t, gen.FontFormats)
+		expensive := t.Choose(1500) == 0
 		data, err := gen.FontFile(f, format)
 		if err != nil {
 			// outside the writer's domain: fall back to a tiny program
@@ -194,6 +195,15 @@ func genInput(t *sim.Tape, allowed []Surface, st *sim.Stats) *Input {
 			return in
 		}
 		in.Desc = fmt.Sprintf("%s, format %d", gen.DescribeFont(f), format)
+		if expensive && format != type1.FormatPFB {
+			// a font program that needs more operations than the reader's budget
+			// (3 million): rare, each read costs a few hundred milliseconds
+			if i := bytes.IndexByte(data, '\n'); i > 0 {
+				data = append(append(append([]byte{}, data[:i+1]...), "1 1 1200000 {pop} for\n"...), data[i+1:]...)
+				in.Desc += ", with a 4.8-million-operation prologue"
+				st.Inc("fonts_beyond_the_readers_budget")
+			}
+		}
 		if t.Bool(1, 2) {
 			data = gen.Relayout(t, data, format)
 			in.Desc += ", re-laid-out"
